@@ -54,12 +54,12 @@ def run(tier):
     import itertools
     wscn = []
     for n in range(2, 7 if tier == "thorough" else 6):
-        for ops in itertools.product("pf", repeat=n):
-            if "f" not in ops or ops[0] == "f":
+        for ops in itertools.product("pfc", repeat=n):     # c: two overlapping flushes (the buffer is shared by two workers)
+            if ("f" not in ops and "c" not in ops) or ops[0] != "p" or ops.count("c") > 2:
                 continue
             wscn.append({"ops": list(ops), "faults": []})
             for i, o in enumerate(ops):
-                if o == "f":
+                if o in "fc":
                     for kind in ("fail", "partial"):
                         wscn.append({"ops": list(ops), "faults": [[i + 1, kind]]})
     p = vlib.write_ndjson(os.path.join(wd, "wbuf.scn.ndjson"), wscn)
